@@ -122,6 +122,8 @@ def monitor (cfgF : Fields) (ops : List (Nat × Fields)) : String :=
   let idHash := getD cfgF "hmode" "id" = "id"
   let lossy := getD cfgF "lossy" "0" = "1"
   let reins := getNatD cfgF "reins" 0 > 0
+  -- directed scenario: a lookup's disk load was held in flight across a remove / an overwrite of its key
+  let directed := getD cfgF "directed" "" = "inflight"
   let rec go (st : MSt) (reopened : Bool) : List (Nat × Fields) → Nat → String
     | [], _ => "HOLDS"
     | (ln, f) :: rest, n =>
@@ -155,6 +157,7 @@ def monitor (cfgF : Fields) (ops : List (Nat × Fields)) : String :=
                   else if st.big.contains ((tGet st.truth k).getD 0) then "stale_after_oversize_update"
                   else if reins then "stale_value_returned_with_reinsertion"
                   else "stale_value_returned"
+                let clause := if directed then clause ++ "_after_inflight_load" else clause
                 some (fail "C01" clause s!"lookup of {k} returned version {rv} from {src}, source of truth is {repr (tGet st.truth k)}")
           | none => none
         else none
